@@ -100,7 +100,10 @@ type Chan struct {
 type Bad struct{}
 
 // unsafe.Pointer and uintptr-ish opaque
-type UnsafePtr struct{ P *Value }
+type UnsafePtr struct {
+	P *Value
+	S []Value // backing bytes for unsafe.SliceData/StringData
+}
 
 func mask(w uint8) uint64 {
 	if w >= 64 {
